@@ -89,7 +89,10 @@ static Result run_case (const Case &c)
 			i ++ ;
 		}
 		if (meta && (!with_chunks || want.empty ())) { sf_set_string (f, SF_STR_ARTIST, "an artist") ; SF_BROADCAST_INFO b ; memset (&b, 0, sizeof (b)) ; strcpy (b.description, "d") ; sf_command (f, SFC_SET_BROADCAST_INFO, &b, sizeof (b)) ; }
-		if (frames && sf_writef_short (f, audio.data (), frames) != frames) { sf_close (f) ; err = "short_write" ; return false ; }
+		// the audio goes in through sf_writef_short or - every other seed, for sample-granular encodings - through sf_write_raw alone (twin and real alike)
+		bool raw_audio = (c.geti ("seed") & 2) && is_granular (s.format) && codec_of (s.format)->bytes > 0 ;
+		if (frames && raw_audio) { sf_count_t bw = (sf_count_t) codec_of (s.format)->bytes * s.ch ; sf_count_t bytes = frames * bw ; std::vector<uint8_t> rawbuf ((size_t) bytes) ; const uint8_t *ab = (const uint8_t *) audio.data () ; size_t an = audio.size () * 2 ; for (size_t q = 0 ; q < rawbuf.size () ; q++) rawbuf [q] = ab [q % an] ; if (sf_write_raw (f, rawbuf.data (), bytes) != bytes) { sf_close (f) ; err = "short_write_raw" ; return false ; } }
+		else if (frames && sf_writef_short (f, audio.data (), frames) != frames) { sf_close (f) ; err = "short_write" ; return false ; }
 		if (late && with_chunks && frames)
 		{	SF_CHUNK_INFO ci ; memset (&ci, 0, sizeof (ci)) ; strcpy (ci.id, "LATE") ; ci.id_size = 4 ; char pl [6] = "late!" ; ci.data = pl ; ci.datalen = 6 ;
 			int rc = sf_set_chunk (f, &ci) ; (void) rc ;	// refused or ignored - either is fine; the audio check below decides
@@ -178,8 +181,14 @@ static Result run_case (const Case &c)
 	sf_count_t rest = sf_readf_short (g, got.data () + (size_t) first_part * ch, frames - first_part) ;
 	if (rest != frames - first_part) { sf_close (g) ; return fail ("audio_short_read", std::to_string ((long long) rest)) ; }
 	sf_close (g) ;
-	if (frames && memcmp (got.data (), audio.data (), (size_t) frames * ch * 2) != 0)
-	{	size_t i = 0 ; while (got [i] == audio [i]) i ++ ; return fail ("audio_changed", "first difference at item " + std::to_string (i) + (first_part ? " (a first part of " + std::to_string ((long long) first_part) + " frames was read before the chunk queries)" : "")) ; }
+	// reference: what was handed to sf_writef_short, or - when the audio went in through sf_write_raw - what the twin file (same bytes, no chunks) decodes to
+	std::vector<short> refaudio = audio ;
+	if ((c.geti ("seed") & 2) && is_granular (s.format) && codec_of (s.format)->bytes > 0 && frames)
+	{	MemFile tw ; tw.data = twin.data ; SF_INFO ti ; SNDFILE *tf = open_read_mem (tw, s, &ti) ; if (!tf) return fail ("twin_reopen_failed", sf_strerror (nullptr)) ;
+		refaudio.assign ((size_t) frames * ch, 0) ; sf_count_t tg = sf_readf_short (tf, refaudio.data (), frames) ; sf_close (tf) ; if (tg != frames) return fail ("twin_short_read", std::to_string ((long long) tg)) ;
+	}
+	if (frames && memcmp (got.data (), refaudio.data (), (size_t) frames * ch * 2) != 0)
+	{	size_t i = 0 ; while (got [i] == refaudio [i]) i ++ ; return fail ("audio_changed", "first difference at item " + std::to_string (i) + (first_part ? " (a first part of " + std::to_string ((long long) first_part) + " frames was read before the chunk queries)" : "")) ; }
 	if (meta)
 	{	MemFile a ; a.data = real.data ; MemFile b ; b.data = twin.data ; SF_INFO i1, i2 ; SNDFILE *f1 = open_read_mem (a, s, &i1), *f2 = open_read_mem (b, s, &i2) ;
 		bool same = true ; if (f1 && f2) for (int st = SF_STR_FIRST ; st <= SF_STR_LAST ; st++) { const char *x = sf_get_string (f1, st), *y = sf_get_string (f2, st) ; if ((x == nullptr) != (y == nullptr) || (x && strcmp (x, y))) same = false ; }
